@@ -133,6 +133,38 @@ theorem C05_incomplete_delegates {Href Sref : Option Rat} {cp : List Pt} {c : In
         · cases Sref <;> rfl
 
 
+/-- **T7'** consequently a `ThermochemIncomplete`/`ThermochemGroup` with heat-capacity data, both reference
+values and a declared range with positive lower end (every shipped group with Cp data has this shape) is
+consistent with its data in the same sense: reference values at `T_ref`, and for any two temperatures in range the
+changes of `T·(H/RT)` and `S/R` are the integrals of the extended `Cp/R` and `Cp/(R·T)` of its table correlation;
+no warning is issued. -/
+theorem C05_incomplete_consistent {h s : Rat} {cp : List Pt} {r : Range} {c : Incomplete}
+    (hmk : Incomplete.mk ip (some h) (some s) cp Tref (some r) = .ok c) (hcp : cp ≠ []) (hg : ip.Good) (hpos : 0 < r.1) :
+    ∃ d, RawData.mk ip h s cp Tref (some r) = .ok d ∧
+      c.HoRT Tref = (.ok h, false) ∧ c.SoR Tref = (.ok s, false) ∧
+      ∀ T₁ T₂, inRange T₁ (some r) → inRange T₂ (some r) →
+        ∃ h₁ h₂ s₁ s₂, c.HoRT T₁ = (.ok h₁, false) ∧ c.HoRT T₂ = (.ok h₂, false) ∧
+          c.SoR T₁ = (.ok s₁, false) ∧ c.SoR T₂ = (.ok s₂, false) ∧
+          T₂ * h₂ - T₁ * h₁ = d.intCp T₁ T₂ ∧ s₂ - s₁ = d.intCpT T₁ T₂ ∧
+          c.GoRT T₁ = (.ok (h₁ - s₁), false) := by
+  obtain ⟨d, hd, _, hev⟩ := C05_incomplete_delegates hmk hcp
+  simp only [Option.getD_some] at hd
+  have hr : d.range = r := (RawData.mk_built hd).range_some r rfl
+  have hpos' : 0 < d.range.1 := hr ▸ hpos
+  refine ⟨d, hd, ?_, ?_, fun T₁ T₂ i₁ i₂ => ?_⟩
+  · rw [(hev Tref).2.1]; simp only [C05_ref_enthalpy hd hg hpos', convertErr]
+  · rw [(hev Tref).2.2]; simp only [C05_ref_entropy hd hg hpos', convertErr]
+  · obtain ⟨h₁, h₂, e₁, e₂, eh⟩ := C05_enthalpy_integral hd hg hpos' T₁ T₂ (hr ▸ i₁) (hr ▸ i₂)
+    obtain ⟨s₁, s₂, f₁, f₂, es⟩ := C05_entropy_integral hd hg hpos' T₁ T₂ (hr ▸ i₁) (hr ▸ i₂)
+    have k₁ : c.HoRT T₁ = (.ok h₁, false) := by rw [(hev T₁).2.1]; simp only [e₁, convertErr]
+    have k₂ : c.SoR T₁ = (.ok s₁, false) := by rw [(hev T₁).2.2]; simp only [f₁, convertErr]
+    refine ⟨h₁, h₂, s₁, s₂, k₁, ?_, k₂, ?_, eh, es, ?_⟩
+    · rw [(hev T₂).2.1]; simp only [e₂, convertErr]
+    · rw [(hev T₂).2.2]; simp only [f₂, convertErr]
+    · unfold Incomplete.GoRT gibbs
+      rw [k₁, k₂]
+      rfl
+
 /-- The specification integral `intCp` really is "the integral of Cp/R held at the end values outside the
 tabulated span": it is additive, equals `minCp·(b−a)` below the table, the interpolant's own integral
 inside, and `maxCp·(b−a)` above. -/
